@@ -150,25 +150,42 @@ def run(ctx: Ctx) -> None:
     # ---- R6
     nu = repo.func("middleware.http_to_https", "HTTPToHTTPSRedirectMiddleware._new_url")
     wn = "middleware.http_to_https:HTTPToHTTPSRedirectMiddleware._new_url"
-    rets = [n for n in walk_local(nu) if isinstance(n, ast.Return)]
-    ok = len(rets) == 1 and norm(rets[0].value) == "urlunsplit((scheme, host, path, scope['query_string'].decode(), ''))"
-    ctx.check("C20.R6", wn, "urlunsplit((scheme, host, path, query, ''))", ok, f"returns {[norm(r.value) for r in rets]}", nu)
-    pd = [n for n in walk_local(nu) if isinstance(n, ast.Assign) and dotted(n.targets[0]) == "path"]
-    ok = len(pd) == 1 and norm(pd[0].value) == "scope.get('root_path', '') + scope['raw_path'].decode()"
-    ctx.check("C20.R6", wn, "path = root_path + raw_path", ok, f"path built as {[norm(p.value) for p in pd]}", pd[0] if pd else nu)
-    hd = [n for n in walk_local(nu) if isinstance(n, ast.Assign) and dotted(n.targets[0]) == "host"]
-    vals = sorted((norm(h.value), tuple(sorted(guard_atoms(h)))) for h in hd)
-    ok = len(hd) == 2 and any(v == "self.host" and not g_ for v, g_ in vals) and any(v == "value.decode('latin-1')" and ("host is None", True) in g_ and ("key == b'host'", True) in g_ for v, g_ in vals)
-    ctx.check("C20.R6", wn, "host <- constructor value, else the host header", ok, f"host assignments: {vals}", nu)
+    from ..astq import expand_locals
+    from ..pred import eval_function as _evf20
+
+    imp = [n for n in repo.module("middleware.http_to_https").tree.body if isinstance(n, ast.ImportFrom) and n.module == "urllib.parse" and any(a.name == "urlunsplit" and a.asname is None for a in n.names)]
+    ctx.check("C20.R6", wn, "urlunsplit is urllib.parse.urlunsplit", len(imp) == 1, "URL assembly must use urllib.parse.urlunsplit", None)
+    pn = [a.arg for a in nu.args.args][1:]
+    table = [
+        (None, [(b"host", b"example.com")], "", b"/a/b", b"x=1", "https", "https://example.com/a/b?x=1"),
+        (None, [(b"accept", b"*"), (b"host", b"example.com")], "/app", b"/a%20b", b"", "https", "https://example.com/app/a%20b"),
+        ("fixed.example", [(b"host", b"example.com")], "", b"/", b"q", "wss", "wss://fixed.example/?q"),
+        (None, [(b"host", b"first.example"), (b"host", b"second.example")], "", b"/", b"", "https", "https://first.example/"),
+        (None, [], "", b"/", b"", "https", "raise"),
+    ]
+    for host, hdrs, root, raw, qs, scheme, want in table:
+        scope_ = {"headers": hdrs, "raw_path": raw, "query_string": qs}
+        if root:
+            scope_["root_path"] = root
+        try:
+            got = _evf20(nu, {"self.host": host, pn[0]: scheme, pn[1]: scope_}) if len(pn) == 2 else "wrong signature"
+        except Exception as error:
+            got = "raise" if "ValueError" in str(error) else f"not evaluable: {error}"
+        ctx.check("C20.R6", wn, f"_new_url({scheme!r}, host={host!r}, headers={hdrs}, root_path={root!r}, raw_path={raw!r}, query={qs!r})", got == want, f"gives {got!r}, expected {want!r}: the redirect must keep root_path + raw path + query and take the host from the constructor value, else from the first host header", nu)
     hredir = repo.func("middleware.http_to_https", "HTTPToHTTPSRedirectMiddleware._send_http_redirect")
-    src = norm(hredir)
-    ok = "self._new_url('https', scope)" in src and "'status': 307" in src and "(b'location', new_url.encode())" in src and "'type': 'http.response.start'" in src and "'type': 'http.response.body'" in src
-    ctx.check("C20.R6", "middleware.http_to_https:HTTPToHTTPSRedirectMiddleware._send_http_redirect", "307 location: https URL", ok, "http redirect changed", hredir)
     wredir = repo.func("middleware.http_to_https", "HTTPToHTTPSRedirectMiddleware._send_websocket_redirect")
-    src = norm(wredir)
-    sch = [n for n in walk_local(wredir) if isinstance(n, ast.Assign) and dotted(n.targets[0]) == "scheme"]
-    ok = "self._new_url(scheme, scope)" in src and "'status': 307" in src and "(b'location', new_url.encode())" in src and "websocket.http.response.start" in src and "websocket.http.response.body" in src
-    ok = ok and sorted(norm(s.value) for s in sch) == ["'https'", "'wss'"] and any(norm(s.value) == "'https'" and ("scope.get('http_version', '1.1') == '2'", True) in guard_atoms(s) for s in sch)
-    ctx.check("C20.R6", "middleware.http_to_https:HTTPToHTTPSRedirectMiddleware._send_websocket_redirect", "307 location: wss URL (https on HTTP/2)", ok, "websocket redirect changed", wredir)
+    for fn_, start_t, body_t, label in ((hredir, "http.response.start", "http.response.body", "_send_http_redirect"), (wredir, "websocket.http.response.start", "websocket.http.response.body", "_send_websocket_redirect")):
+        sends = [c for c in calls(fn_) if call_name(c) == "send" and c.args and isinstance(c.args[0], ast.Dict)]
+        types = [norm(v) for c in sends for k, v in zip(c.args[0].keys, c.args[0].values) if norm(k) == "'type'"]
+        ok = types == [f"'{start_t}'", f"'{body_t}'"]
+        if ok:
+            d0 = dict((norm(k), v) for k, v in zip(sends[0].args[0].keys, sends[0].args[0].values))
+            loc = norm(expand_locals(d0.get("'headers'"), fn_)) if d0.get("'headers'") is not None else ""
+            want_call = "self._new_url('https', scope)" if fn_ is hredir else "self._new_url(scheme, scope)"
+            ok = norm(d0.get("'status'")) == "307" and loc == f"[(b'location', {want_call}.encode())]"
+        if ok and fn_ is wredir:
+            sch = [n for n in walk_local(wredir) if isinstance(n, ast.Assign) and dotted(n.targets[0]) == "scheme"]
+            ok = sorted(norm(s_.value) for s_ in sch) == ["'https'", "'wss'"] and all((("scope.get('http_version', '1.1') == '2'", True) in guard_atoms(s_)) == (norm(s_.value) == "'https'") or (norm(s_.value) == "'wss'" and (not guard_atoms(s_) or ("scope.get('http_version', '1.1') == '2'", False) in guard_atoms(s_))) for s_ in sch)
+        ctx.check("C20.R6", f"middleware.http_to_https:HTTPToHTTPSRedirectMiddleware.{label}", "307 with location = the new URL" + (" (https on HTTP/2, else wss)" if fn_ is wredir else " (https)"), ok, "redirect response changed", fn_)
 
     ctx.assume("not decided: string-level results for arbitrary header contents (RFC 7239 quoting, IPv6 literals), urlunsplit semantics")
